@@ -26,12 +26,13 @@ def run(chk, tier):
     dprog = mir.Program(facts.load_mir(facts.CONFIGS["all"], "scale_info_derive"))
     cfg = dprog.config
     custom_bounds(chk, dprog, cfg)
+    attribute_lookup(chk, dprog, cfg)
     selection(chk, dprog, cfg)
     relaxed(chk, dprog, cfg)
     self_reference(chk, dprog, cfg)
     compact_bound(chk, dprog, cfg)
     n = witness.record(chk, "C13", tier)
-    chk.floor("R13.5", n, 17, "witness programs for C13 (15 positive, 2 negative)")
+    chk.floor("R13.5", n, 19, "witness programs for C13 (17 positive, 2 negative)")
     chk.trusted += ["rustc's type checker decides each witness", "syn / quote"]
     chk.assumptions += ["definitions outside the witness corpus are covered by the structural rules only"]
 
@@ -71,6 +72,37 @@ def custom_bounds(chk, dprog, cfg):
             ok = custom_first and no_gen_after_custom and ext_on_some and not any("TypeInfo" in x for x in idents)
             detail = "custom path: extend_where_clause %s, generated predicates reachable afterwards: %s, identifiers pushed: %s" % (ext_on_some, not no_gen_after_custom, sorted(idents))
     chk.expect(ok, "R13.1", "make_where_clause:custom-bounds-replace", b.where(), detail, cfg)
+    # both paths extend the declaration's own where clause (bounds(..) replaces the *generated* bounds only)
+    ext = b.calls_to(cd.D + "attr::BoundsAttr::extend_where_clause")
+    ok2 = False
+    detail2 = "extend_where_clause calls: %d" % len(ext)
+    if len(ext) == 1:
+        wc = unref(b.operand_term(ext[0][1]["args"][1]))
+        if wc[0] == "var":
+            ini = b.var_init(wc[1])
+            declared = len(ini) == 1 and any(x[0] == "field" and x[3] == "where_clause" and len(x) > 4 and x[4] == "syn::generics::Generics" for x in mir.walk(ini[0]))
+            returned = any(is_mir_ok_of(b, wc))
+            ok2 = declared and returned
+            detail2 = "custom predicates are appended to a clause initialised from generics.where_clause: %s; that clause is what is returned: %s" % (declared, returned)
+    chk.expect(ok2, "R13.1", "make_where_clause:keeps-declared-where-clause", b.where(), detail2, cfg)
+
+
+def is_mir_ok_of(b, var):
+    """does some Ok(..) alternative of the return value carry `var`?"""
+    rt = b.return_term()
+    alts = list(rt[1]) if rt[0] == "phi" else [rt]
+    for a in alts:
+        if a[0] == "agg" and a[2].get("vname") == "Ok" and len(a[3]) == 1:
+            yield unref(a[3][0]) == var
+
+
+def attribute_lookup(chk, dprog, cfg):
+    chk.rule("R13.0", "attribute lookup considers every attribute of the member: find_meta_item is `find_map` over all attributes of the namespace "
+             "(an attribute standing second must still be seen)")
+    b = dprog.body(dprog.fn("utils::find_meta_item"))
+    rt = b.return_term()
+    ok = is_call(rt, "core::iter::traits::iterator::Iterator::find_map", nargs=2) and unref(rt[2][0]) in (("arg", 2, b.names.get(2)), ("var", 2, b.names.get(2)))
+    chk.expect(ok, "R13.0", "find_meta_item:find_map-over-all-attributes", b.where(), path_str(rt)[:160], cfg)
 
 
 def selection(chk, dprog, cfg):
